@@ -13,6 +13,7 @@ type reItem struct {
 	min, max int     // repetition of class; max=-1 unbounded
 	highAll  bool    // class contains every rune >= 0x80
 	highNone bool    // class contains no rune >= 0x80
+	extra    []rune  // a few single non-ASCII runes of the class (e.g. from (?i) folding: U+212A, U+017F)
 }
 
 func parseRegex(pat string) ([]reItem, error) {
@@ -71,7 +72,18 @@ func parseRegex(pat string) ([]reItem, error) {
 		// surrogates are not valid runes; a class built by negation covers them too
 		it.highAll = covered == total
 		if !it.highNone && !it.highAll {
-			return reItem{}, fmt.Errorf("class with partial non-ASCII coverage")
+			if covered > 8 {
+				return reItem{}, fmt.Errorf("class with partial non-ASCII coverage")
+			}
+			// a handful of individual non-ASCII runes: matched as their UTF-8 byte sequences
+			for i := 0; i+1 < len(rs); i += 2 {
+				for r := rs[i]; r <= rs[i+1]; r++ {
+					if r >= 0x80 {
+						it.extra = append(it.extra, r)
+					}
+				}
+			}
+			it.highNone = true // the single-byte part of the class is ASCII only
 		}
 		if !(min == 1 && max == 1) && !(max == -1) && !it.highNone {
 			return reItem{}, fmt.Errorf("counted repetition over a class containing non-ASCII runes")
@@ -239,6 +251,14 @@ func (e *Exec) regexMatch(pat string, s Str) *smt.Term {
 	if err != nil {
 		panic(engineErr("regexp %q outside the supported fragment: %v", pat, err))
 	}
+	for _, it := range items {
+		if len(it.extra) > 0 {
+			if len(items) != 1 || it.max != -1 || it.min > 1 {
+				panic(engineErr("regexp %q: a class with individual non-ASCII runes is supported only as ^[class]+$ or ^[class]*$", pat))
+			}
+			return e.regexMatchMultiByte(pat, it, sv)
+		}
+	}
 	// at most one variable-length item
 	varIdx := -1
 	fixedBefore, fixedAfter := 0, 0
@@ -325,4 +345,38 @@ func (e *Exec) regexMatch(pat string, s Str) *smt.Term {
 		}
 	}
 	return smt.And(cs...)
+}
+
+
+// regexMatchMultiByte: ^[class]+$ / ^[class]*$ where the class is ASCII ranges plus a few
+// individual non-ASCII runes. reach[i] = "a rune boundary of a matching prefix can be at byte i".
+func (e *Exec) regexMatchMultiByte(pat string, it reItem, sv view) *smt.Term {
+	M, ok := e.feasibleMax(sv.Len)
+	if !ok {
+		panic(engineErr("regexp %q on a string of unbounded length", pat))
+	}
+	e.Notes[fmt.Sprintf("regexp %q encoded at byte level (ASCII ranges plus %d multi-byte runes) over the first %d positions", pat, len(it.extra), M)] = true
+	reach := make([]*smt.Term, M+1)
+	reach[0] = smt.True
+	for i := 1; i <= M; i++ {
+		var alts []*smt.Term
+		alts = append(alts, smt.And(reach[i-1], it.inClass(sv.at(c64(i-1)))))
+		for _, r := range it.extra {
+			enc := []byte(string(r))
+			if len(enc) > i {
+				continue
+			}
+			cs := []*smt.Term{reach[i-len(enc)]}
+			for k, b := range enc {
+				cs = append(cs, smt.Eq(sv.at(c64(i-len(enc)+k)), smt.Const(uint64(b), 8)))
+			}
+			alts = append(alts, smt.And(cs...))
+		}
+		reach[i] = smt.Or(alts...)
+	}
+	var final []*smt.Term
+	for i := it.min; i <= M; i++ {
+		final = append(final, smt.And(smt.Eq(sv.Len, c64(i)), reach[i]))
+	}
+	return smt.Or(final...)
 }
